@@ -184,6 +184,36 @@ STATSFIND = T("GoStatsFind", [
   ("tie_find_run", "CM.GoTie.GoStatsFind.go_FindCommandMetrics_eq", "`FindCommandMetrics` = the first *RunStats among the circuit's run collectors"),
   ("tie_find_fb", "CM.GoTie.GoStatsFind.go_FindFallbackMetrics_eq", "`FindFallbackMetrics` = the first *FallbackStats among its fallback collectors")])
 
+# ---- construction glue (units GoCtor, GoCtorSet, GoManagerAll, GoTCHook, GoSloFactory, GoCircMisc, GoRollingStore)
+CTOR = T("GoCtor", [
+    ("tie_ctor_New", "CM.GoTie.GoCtor.go_NewCircuitFromConfig_eq", "`NewCircuitFromConfig` = merge with the package defaults, a zero circuit with that name, then exactly the translated `SetConfigNotThreadSafe(merged)`"),
+    ("tie_ctor_New_setcfg", "CM.GoTie.GoCtor.m_SetConfigNotThreadSafe_eq", "… whose call IS unit GoSetCfg's translated body (= `rebuild`)"),
+    ("tie_ctor_New_lists", "CM.GoTie.GoCtor.newCircuit_collectors", "… collector lists: closer, opener, then the merged config's, in order"),
+    ("tie_ctor_New_fields", "CM.GoTie.GoCtor.newCircuit_fields", "… name, stored (merged) config, clock, hooks, logic objects, live mirror")]) + T("GoCtorSet", [
+    ("tie_ctor_slices", "CM.GoTie.GoCtorSet.go_SetConfigNotThreadSafe_slices", "`SetConfigNotThreadSafe` over slices with identity and capacity: `rebuild` + three NEW backing arrays"),
+    ("tie_ctor_slices_frame", "CM.GoTie.GoCtorSet.rebuildS_frame", "… no array that existed before the call is written (none of the caller's), whatever spare capacity its slices have"),
+    ("tie_ctor_slices_caller", "CM.GoTie.GoCtorSet.rebuildS_caller_keeps", "… the caller's slices hold what they held"),
+    ("tie_ctor_slices_lists", "CM.GoTie.GoCtorSet.rebuildS_lists", "… the new arrays hold closer, opener, configured collectors"),
+    ("tie_ctor_slices_fresh", "CM.GoTie.GoCtorSet.rebuildS_fresh", "… three distinct new arrays")])
+MGR_ALL = T("GoManagerAll", [
+    ("tie_manager_AllCircuits", "CM.GoTie.GoManagerAll.go_AllCircuits_eq", "`AllCircuits` = one pass over the map under the read lock, every value once; nil manager ⇒ nil"),
+    ("tie_manager_AllCircuits_perm", "CM.GoTie.GoManagerAll.allCircuits_perm", "… a permutation of the registered circuits"),
+    ("tie_manager_AllCircuits_ids", "CM.GoTie.GoManagerAll.allCircuits_sorted_ids", "… sorted ids = the model's `Mgr.step s .all`")])
+TC_HOOK = T("GoTCHook", [
+    ("tie_gate_afterFunc", "CM.GoTie.GoTCHook.go_afterFunc_eq", "`afterFunc` asks the injected `TimeAfterFunc` when set, `time.AfterFunc` otherwise: same duration, same closure"),
+    ("tie_gate_afterFunc_prim", "CM.GoTie.GoTCHook.arm_is_recv_afterFunc", "… and is what the primitive `recv_afterFunc` of unit GoTimedCheck stands for"),
+    ("tie_gate_SetTimeAfterFunc", "CM.GoTie.GoTCHook.go_SetTimeAfterFunc_eq", "`SetTimeAfterFunc` stores the hook"),
+    ("tie_gate_afterFunc_after_set", "CM.GoTie.GoTCHook.afterFunc_after_set", "… the next arming goes to the hook just set")])
+SLO_FACTORY = T("GoSloFactory", [
+    ("tie_slo_getConfig", "CM.GoTie.GoSloFactory.go_getConfig_eq", "`Factory.getConfig` = gap-filling merge: constructors last to first, then Factory.Config, then 250 ms; each constructor called once"),
+    ("tie_slo_getConfig_first", "CM.GoTie.GoSloFactory.specConfig_first", "… = the first layer in that order that sets the healthy time"),
+    ("tie_slo_CommandProperties", "CM.GoTie.GoSloFactory.go_CommandProperties_eq", "`CommandProperties` = a config holding ONE new tracker (zero counters) configured with `getConfig(name)`")])
+CIRC_MISC = T("GoCircMisc", [
+    ("tie_circuit_Name", "CM.GoTie.GoCircMisc.go_Name_eq", "`Name()`: the stored name, the empty string on nil"),
+    ("tie_circuit_Go", "CM.GoTie.GoCircMisc.go_Go_eq", "`Go` = one `Execute` with both functions wrapped by the circuit's goroutine wrapper (zero wrapper on nil)")])
+ROLL_STORE = T("GoRollingStore", [
+    ("tie_rolling_Store", "CM.GoTie.GoRollingStore.go_Store_eq", "`RollingBuckets.Store` copies the argument")])
+
 # ---- K6: interference ties (CircuitProofs/GoTie/I_*): the bodies translated over primitives in which an arbitrary move of the
 # other goroutines precedes every atomic / lock operation take exactly the steps of the small-step model's thread
 K6_CORE = [(("tie_k6_thread_view", "CM.GoTie.ICore.thread_view", "every schedule of any system, seen from one thread, is a run of that thread alone against SOME oracle: what is proved for every oracle covers every schedule"), "I_Core")]
@@ -232,27 +262,27 @@ PROPS = {
                 ("tie_GoHCloser_Closed", "CM.GoTie.GoHCloser.go_Closed_eq", "`Closed` likewise"),
                 ("tie_GoHCloser_Allow", "CM.GoTie.GoHCloser.go_Allow_eq", "`Allow` is the gate's `Check`"),
                 ("tie_GoHCloser_ShouldClose", "CM.GoTie.GoHCloser.go_ShouldClose_eq", "`ShouldClose` compares the successes in a row with the required number")]) + TC +
-            [C("close"), C("checkSuccess")] + CLOSER_CFG + K6_TC),
+            [C("close"), C("checkSuccess")] + CLOSER_CFG + K6_TC + TC_HOOK),
     "C04": ("the gauges and limits: `throttleConcurrentCommands`, the deferred decrements in `run` / `fallback`, the published limits",
             [C("throttleConcurrentCommands"), C("ConcurrentCommands"), C("ConcurrentFallbacks"), RUN, FALLBACK] + LIVECFG + ERR_LIMIT + ATOM_I64),
     "C05": ("the classification chain of `run`",
-            [C("checkErrBadRequest"), C("checkErrTimeout"), C("checkErrInterrupt"), C("checkErrFailure"), C("checkSuccess"), RUN] + FAN_RUN + ALL + ERR_BAD),
+            [C("checkErrBadRequest"), C("checkErrTimeout"), C("checkErrInterrupt"), C("checkErrFailure"), C("checkSuccess"), RUN] + FAN_RUN + ALL + ERR_BAD + CTOR),
     "C06": ("fallback rules: `Execute` and `fallback`", [FALLBACK, EXECUTE, RUNENTRY] + FAN_FB + ERR_BAD + ERR_NOTBAD),
     "C07": ("contexts: the derived deadline context in `run`, the caller's context everywhere else", [RUN, FALLBACK, EXECUTE]),
     "C08": ("overrides and pass-through: `IsOpen`, `allowNewRun`, the transitions, `Execute`'s Disabled branch, the published flags",
-            [C("IsOpen"), C("isEmptyOrNil"), C("allowNewRun"), C("openCircuit"), C("close"), C("attemptToOpen"), EXECUTE] + LIVECFG + SETCFG + ATOM_BOOL),
+            [C("IsOpen"), C("isEmptyOrNil"), C("allowNewRun"), C("openCircuit"), C("close"), C("attemptToOpen"), EXECUTE] + LIVECFG + SETCFG + ATOM_BOOL + CIRC_MISC),
     "C09": ("transitions and their notifications",
-            [C("IsOpen"), C("openCircuit"), C("close"), C("attemptToOpen"), C("OpenCircuit"), C("CloseCircuit"), C("checkSuccess"), C("checkErrFailure"), C("checkErrTimeout")] + FAN_CIRC + SETCFG + ATOM_BOOL + K6_TRANS + K6_CORE),
-    "C10": ("panics: the deferred calls of `run` and `fallback` run on every exit", [RUN, FALLBACK, EXECUTE]),
+            [C("IsOpen"), C("openCircuit"), C("close"), C("attemptToOpen"), C("OpenCircuit"), C("CloseCircuit"), C("checkSuccess"), C("checkErrFailure"), C("checkErrTimeout")] + FAN_CIRC + SETCFG + ATOM_BOOL + K6_TRANS + K6_CORE + CTOR),
+    "C10": ("panics: the deferred calls of `run` and `fallback` run on every exit", [RUN, FALLBACK, EXECUTE] + CIRC_MISC),
     "C11": ("reconfiguration: what each SetConfigThreadSafe writes (circuit, hystrix opener, hystrix closer, SLO tracker) — every setting, nothing else",
             SETCFG + LIVECFG + OPENER_CFG + CLOSER_CFG + SLO_CFG),
     "C12": ("every timestamp is a reading of the configured clock: all translated functions of circuit.go",
-            [C("now"), C("OpenCircuit"), C("CloseCircuit"), RUN, FALLBACK] + ALL),
-    "C13": ("the rolling counter: rolling_bucket.go's `Advance` and rolling_counter.go's methods are the model `RC`", ROLL + FSNEW_RC),
+            [C("now"), C("OpenCircuit"), C("CloseCircuit"), RUN, FALLBACK] + ALL + CTOR[:4]),
+    "C13": ("the rolling counter: rolling_bucket.go's `Advance` and rolling_counter.go's methods are the model `RC`", ROLL + FSNEW_RC + ROLL_STORE),
     "C14": ("the counter under interference: every atomic step of rolling_counter.go / rolling_bucket.go is the small-step model's", K6_RC + K6_CORE + ATOM_I64),
     "C15": ("rolling_percentile.go: the ring of circular buffers is the model `RP` / `DSlot`, the snapshot's numbers are the model `SD`", RPT + SD + FSNEW_RP),
-    "C16": ("the gate: timedcheck.go's method bodies are the model `TC`", TC + K6_TC + K6_CORE + ATOM_BOOL + ATOM_I64),
-    "C17": ("the registry: manager.go's CreateCircuit / GetCircuit / MustCreateCircuit are the model `Mgr`", MGR + STATFACTORY + STATSFIND),
+    "C16": ("the gate: timedcheck.go's method bodies are the model `TC`", TC + K6_TC + K6_CORE + ATOM_BOOL + ATOM_I64 + TC_HOOK),
+    "C17": ("the registry: manager.go's CreateCircuit / GetCircuit / MustCreateCircuit are the model `Mgr`", MGR + STATFACTORY + STATSFIND + MGR_ALL + CTOR),
     "C20": ("the collectors' method bodies, translated from today's rolling.go / responsetime.go, are the model's functions",
             T("GoRunStats", evs("GoRunStats", "Cons.RunStats.onRun") + [
                 ("tie_GoRunStats_ErrorsAt", "CM.GoTie.GoRunStats.go_ErrorsAt_eq", "errors = failures + timeouts, both read at the same instant"),
@@ -268,7 +298,7 @@ PROPS = {
                 ("tie_GoSlo_failure", "CM.GoTie.GoSlo.go_failure_eq", "a fail verdict moves the counter and tells every collector"),
                 ("tie_GoSlo_healthy", "CM.GoTie.GoSlo.go_healthy_eq", "a pass verdict likewise"),
                 ("tie_GoSlo_onRun_slo", "CM.GoTie.GoSlo.onRun_slo", "the tracker part of `SloW.onRun` is `Slo.onRun`"),
-                ("tie_GoSlo_tell_told", "CM.GoTie.GoSlo.tell_told", "each verdict reaches every attached collector exactly once")]) + SLO_CFG + STATS + STATSFB + STATSFIND),
+                ("tie_GoSlo_tell_told", "CM.GoTie.GoSlo.tell_told", "each verdict reaches every attached collector exactly once")]) + SLO_CFG + STATS + STATSFB + STATSFIND + SLO_FACTORY),
 }
 
 # which regenerated units each property's tie depends on (-> lib/props.py "generated")
@@ -282,6 +312,9 @@ UNITS = {"F_": "gocircuit", "All": "gocircuit", "T_GoHOpener": "gohopener", "T_G
          "T_GoNewRC": "gonewrc", "T_GoNewRP": "gonewrp", "T_GoRCWall": ["gorcwall", "gorollingcounter", "gorollingbuckets"], "T_GoRPSnap": ["gorpsnap", "gorollingpercentile", "gorollingbucketsp", "godurationsbucket"],
          "T_GoDBIter": "godbiter", "T_GoSDVar": ["gosdvar", "gosorteddurations"],
          "T_GoStatsRun": "gostatsrun", "T_GoStatsFb": "gostatsfb", "T_GoStatsFactory": "gostatsfactory", "T_GoStatsFind": "gostatsfind",
+         "T_GoCtor": ["goctor", "gosetcfg", "goslocfg"], "T_GoCtorSet": ["goctorset", "gosetcfg"], "T_GoManagerAll": ["gomanagerall", "gosetcfg", "goslocfg"],
+         "T_GoTCHook": ["gotchook", "gotimedcheck", "gosetcfg", "goslocfg"], "T_GoSloFactory": ["goslofactory", "goslocfg", "gosetcfg"],
+         "T_GoCircMisc": ["gocircmisc", "gosetcfg", "goslocfg"], "T_GoRollingStore": ["gorollingstore", "gosetcfg", "goslocfg"],
          "I_Core": [], "I_RC": ["gorciclear", "gorciadv", "gorciops"], "I_TC": "gotci", "I_Call": "gocalli",
          "T_GoLiveLogic": ["goneveropens", "gonevercloses", "gohopenercfg", "gohclosercfg", "goslocfg"]}
 
